@@ -258,7 +258,7 @@ def random_generic_file(rng):
                 if ln['k'] != 'cont':
                     typed.append(ln)
                 elif nm == 'moleculetype':
-                    typed.append(dict(ln, t=[rng.choice(['MOL', 'LIG_A', 'X1']), rng.choice(['1', '3'])]))
+                    typed.append(dict(ln, t=[rng.choice(['MOL', 'LIG_A', 'X1', 'A_VERY_LONG_MOLECULE_NAME_17', 'SIXTEEN_CHARS_16']), rng.choice(['1', '3'])]))
                 else:
                     i = str(rng.randint(1, 99))
                     typed.append(dict(ln, t=[i, rng.choice(['C', 'P4', 'opls_135']), rng.choice(['1', '2', '77']), 'RES',
@@ -324,7 +324,7 @@ def random_topology(rng, n, graph_kind):
         f.append({'k': 'pre', 't': ['#include', '"forcefield.itp"'], 'c': []})
     f.append({'k': 'sec', 't': ['moleculetype'], 'c': []})
     f.append({'k': 'comm', 't': [], 'c': [['name', 'nrexcl']]})
-    f.append({'k': 'cont', 't': [rng.choice(['MOL', 'BMIM', 'X1', 'LIG_A']), rng.choice(['1', '3'])],
+    f.append({'k': 'cont', 't': [rng.choice(['MOL', 'BMIM', 'X1', 'LIG_A', 'POLYETHYLENE_GLYCOL_400_MONOMETHYL_ETHER', 'SIXTEEN_CHARS_16']), rng.choice(['1', '3'])],
               'c': [] if rng.random() < 0.6 else [[rng.choice(WORDS)]]})          # a trailing comment, glued or not
     f.append({'k': 'blank', 't': [], 'c': []})
     f.append({'k': 'sec', 't': ['atoms'], 'c': []})
@@ -346,11 +346,27 @@ def random_topology(rng, n, graph_kind):
             f.append({'k': 'sec', 't': [rng.choice(['angles', 'dihedrals'])], 'c': []})
             f += [ln for ln in random_lines(rng, 2) if ln['k'] != 'pre']
         f.append({'k': 'sec', 't': [nm], 'c': []})
+        # preprocessor lines are ignored wherever they stand: a block of the section may sit between #ifdef / #else / #endif
+        cond = rng.random() < 0.25
+        mine = [b for b in bonds if assign[b] == bi]
+        marks = {}
+        if cond and mine:
+            i0 = rng.randrange(len(mine))
+            i1 = rng.randrange(i0, len(mine))
+            marks = {('before', i0): ['#ifdef', 'FLEXIBLE'], ('after', i1): ['#endif']}
+            if i1 > i0:
+                marks[('before', rng.randrange(i0 + 1, i1 + 1))] = ['#else']
+        k_ = 0
         for b in bonds:
             if assign[b] == bi:
+                if ('before', k_) in marks:
+                    f.append({'k': 'pre', 't': marks[('before', k_)], 'c': []})
                 a, c = (b if rng.random() < 0.5 else b[::-1])
                 toks = [str(nrs[a]), str(nrs[c])] + rng.choice([[], ['1'], ['1', '0.47', '1250'], ['2', '0.31'], ['6', '0.4', '500'], ['5']])   # any function type
                 f.append({'k': 'cont', 't': toks, 'c': [] if rng.random() < 0.8 else [['b']]})
+                if ('after', k_) in marks:
+                    f.append({'k': 'pre', 't': marks[('after', k_)], 'c': []})
+                k_ += 1
             if rng.random() < 0.03:
                 f.append({'k': 'comm', 't': [], 'c': [['x']]})
     return f, n, [list(b) for b in bonds]
